@@ -199,7 +199,16 @@ def gen_case(rnd, prop, tier):
     prelude = []
     if rnd.random() < 0.15:
         prelude = [[eps, rnd.choice([4e-9, 1e-9, 1e-6, 1e-3])]]     # an earlier run in the same process with another delta
-    return dict(engine='D', mech=mech, attrs=attrs, sizes=sizes, records=recs, adj=adj, idx=idx, newrec=newrec, eps=eps, delta=delta, params=params,
+    weights = None
+    if rnd.random() < 0.12:
+        # weighted records, all weights <= 1 so that one record still moves every count by at most 1
+        weights = [rnd.choice([1.0, 1.0, 0.5, 0.25]) for _ in recs]
+        weights[idx] = 1.0 if rnd.random() < 0.7 else weights[idx]
+        if adj != 'replace' and rnd.random() < 0.5 and 1.0 in weights:
+            for j in range(len(weights)):
+                if j != idx and weights[j] == 1.0:
+                    weights[j] = 0.5       # the differing record is the only heaviest one
+    return dict(engine='D', mech=mech, attrs=attrs, sizes=sizes, records=recs, weights=weights, new_weight=rnd.choice([1.0, 0.5]), adj=adj, idx=idx, newrec=newrec, eps=eps, delta=delta, params=params,
                 policy=dict(name=pol, rates=rates, shuffle=rnd.choice(['random', 'random', 'identity'])), rng_seed=rnd.getrandbits(32),
                 iters_cap=rnd.choice([1, 5, 20, 100]), prelude=prelude, how=how)
 
@@ -220,8 +229,17 @@ def datasets(mbi, case):
         B.append(list(case['newrec']))
     else:
         B[case['idx']] = list(case['newrec'])
-    mk = lambda rows: mbi.Dataset(pd.DataFrame(np.array(rows, dtype=int).reshape(len(rows), len(case['attrs'])), columns=case['attrs']), dom)
-    return mk(A), mk(B)
+    wA = wB = None
+    if case.get('weights'):
+        wA = list(case['weights'])
+        wB = list(case['weights'])
+        if case['adj'] == 'remove':
+            del wB[case['idx']]
+        elif case['adj'] == 'add':
+            wB.append(case.get('new_weight', 1.0))
+    mk = lambda rows, w: mbi.Dataset(pd.DataFrame(np.array(rows, dtype=int).reshape(len(rows), len(case['attrs'])), columns=case['attrs']), dom,
+                                     weights=None if w is None else np.array(w, dtype=float))
+    return mk(A, wA), mk(B, wB)
 
 
 def execute(case, mod, data, rng):
@@ -396,6 +414,8 @@ def run_case(case, prop):
     if case.get('prelude'):
         faults['earlier-budget-conversion-in-process'] = 1
     faults['neighbour-' + case['adj']] = 1
+    if case.get('weights'):
+        faults['weighted-records'] = 1
     trace = [(e['kind'], e['n'], None if e['kind'] not in ('normal', 'laplace') else float('%.3g' % float(np.max(np.asarray(e['scale']))))) for e in evA][:60]
     pclass = (case['eps'], case['delta'], case['params'].get('rounds'), case['params'].get('noise'), case['params'].get('bounded'))
     measure = [mech, case['adj'], pclass, trace]
@@ -419,6 +439,8 @@ def shrink(case, prop):
         if keep_idx is not None and keep_idx in rows:
             return None
         c['records'] = [r for i, r in enumerate(case['records']) if i not in rows]
+        if case.get('weights'):
+            c['weights'] = [w for i, w in enumerate(case['weights']) if i not in rows]
         if keep_idx is not None:
             c['idx'] = keep_idx - sum(1 for i in rows if i < keep_idx)
         if not c['records']:
@@ -437,6 +459,10 @@ def shrink(case, prop):
     if case['prelude']:
         c = copy.deepcopy(case)
         c['prelude'] = []
+        yield c
+    if case.get('weights'):
+        c = copy.deepcopy(case)
+        c['weights'] = None
         yield c
     if case['policy']['rates']:
         c = copy.deepcopy(case)
